@@ -89,7 +89,9 @@ fn main() {
     if args.is_empty() {
         die(2, "usage: mc <ID> [--tier quick|thorough] | mc replay <file> | mc selftest");
     }
-    quiet_panics();
+    if std::env::var_os("MC_LOUD").is_none() {
+        quiet_panics();
+    }
     if let Err(e) = selftest::run() {
         die(3, &format!("reference-model self-test failed (machinery error, not a verdict): {}", e));
     }
